@@ -382,7 +382,7 @@ def worker(item):
     st = explore(ex, harness)
     finds = [f for f in st['findings'] if 'msg' in f]
     notes = [f['note_graph_type'] for f in st['findings'] if 'note_graph_type' in f]
-    return {'paths': st['paths'], 'solver_calls': st['solver_calls'], 'asserts': st['asserts'], 'solver_s': st['solver_s'], 'steps': st['steps'],
+    return {'paths': st['paths'], 'solver_calls': st['solver_calls'], 'asserts': st['asserts'], 'solver_s': st['solver_s'], 'cross': st['cross'], 'steps': st['steps'],
             'infeasible': st['infeasible'], 'findings': finds, 'cells': [str((macro, form))], 'notes': notes[:1],
             'cov_fns': list(ex.cov_fns), 'cov_prims': list(ex.cov_prims),
             'sample': invocation(macro, form, shape, lambda i: f'k{i}', lambda j: f'v{j}')}
@@ -431,7 +431,7 @@ def helper_worker(item):
             cs.append((n == 0, f'{macro}![] should be empty', 'helper'))
         return [{'item': [macro, which], 'binding': None, 'msg': cs[i][1], 'kind': cs[i][2]} for i, m in ex.prove_all(cs)]
     st = explore(ex, harness)
-    return {'paths': st['paths'], 'solver_calls': st['solver_calls'], 'asserts': st['asserts'], 'solver_s': st['solver_s'], 'steps': st['steps'],
+    return {'paths': st['paths'], 'solver_calls': st['solver_calls'], 'asserts': st['asserts'], 'solver_s': st['solver_s'], 'cross': st['cross'], 'steps': st['steps'],
             'infeasible': st['infeasible'], 'findings': st['findings'], 'cells': [str((macro, 'helper'))],
             'cov_fns': list(ex.cov_fns), 'cov_prims': list(ex.cov_prims), 'sample': None}
 
